@@ -45,10 +45,28 @@ class Runner(object):
         self.exe = ctx.build_harness("data_harness", san=True, extra=["-I" + ctx.tmp])
         self.drv = ctx.ocaml_driver("drv_data")
         self.n = 0
+        self.dd2_fixed = self.probe_dd2()
+
+    # Finding DD2: vnadata_convert into a second object loses the per-frequency-z0 mode of a source
+    # without frequencies.  ConvertModel has both behaviours (dd2_fixed), the theorems are proved
+    # for both, and the correspondence uses the variant the compiled code exhibits on this probe.
+    DD2_PROBE = "0 init 1 2 2 1\n0 setfz0v 0 2 60,0 85,0\n0 resize 1 2 2 0\nconv 0 1 4\n1 hasfz0\n"
+
+    def probe_dd2(self):
+        try:
+            rc, out, err = self.impl(self.DD2_PROBE)
+        except Exception:
+            return False
+        rl = [l.split() for l in out.split("\n") if l.startswith("R ")]
+        fixed = rc == 0 and len(rl) == 5 and rl[4][1] == "ok" and rl[4][-2:] == ["b", "1"]
+        self.ctx.extra["dd2_repair_in_code"] = bool(fixed)
+        return fixed
 
     def model(self, script, as_found=False):
         # as_found: False = repaired behaviour, True = all quirks, or a string "d4,d6"
         cmd = [self.drv] + (["--as-found"] if as_found is True else ["--quirks", as_found] if as_found else [])
+        if self.dd2_fixed:
+            cmd.append("--dd2-fixed")
         rc, out, err = vplib.sh(cmd, input=script, timeout=120)
         if rc != 0:
             raise RuntimeError("model driver failed (%d): %s" % (rc, err[-500:]))
